@@ -5,13 +5,13 @@ PT = "routee-compass-powertrain"
 soc = KaniUnit("c08_soc", PT, modules=[dict(file=PT + "/src/routee/vehicle/vehicle_ops.rs", src="c08_soc.rs")],
                harnesses=[H("c08_soc_in_range", "complete", "soc_from_battery_and_delta / as_soc_percent on the real f64 code, all finite inputs, capacity > 0: result in [0,100], never NaN; empty => 0", timeout=120)])
 bw = KaniUnit("c08_best_case_wit", PT, modules=[dict(file=PT + "/src/routee/vehicle/default/bev.rs", src="c08_best_case_wit.rs")], harnesses=[])
-bw.native_witnesses = ["c08_wit_best_case_energy_state_is_ideal_rate_times_distance_in_the_state_units"]
+bw.native_witnesses = ["c08_wit_best_case_energy_state_is_ideal_rate_times_distance_in_the_state_units", "c08_wit_state_of_charge_starts_at_the_querys_value"]
 vu = VerusUnit("c08_vehicle", "c08_vehicle", rlimit=60, paired_kani=(bw, []))
 em = VerusUnit("c08_energy_model", "c08_energy_model", rlimit=30)
 UNITS = [vu, em, soc, bw]
 EXPLANATION = ("EnergyTraversalModel::traverse_edge / estimate_traversal / get_grade (unit c08_energy_model, verbatim): the vehicle is asked to consume energy for THIS edge -- its length in the service's distance unit, its grade from the grade table (0 without one), and speed = length in the speed unit's own distance unit / the time the time model added in the speed unit's own time unit; "
                "vehicle_ops, PredictionModelRecord::predict (with and without cache), get_phev_energy, ICE/BEV/PHEV::consume_energy, best_case_energy and best_case_energy_state, Energy::create extracted verbatim and "
                "verified over the reals: energy = rate x adjustment x converted distance in the rate's energy unit; soc' = clamp(soc - 100*delta/capacity) in [0,100]; PHEV switch on entry soc; an ICE vehicle accumulates the predicted energy of the edge in its liquid-fuel slot; the best-case state used to order the search grows by the ideal rate x distance converted from the MODEL's energy unit to the slot's, the state of charge by the same energy in the battery's unit (failed on the pinned code for a battery configured in another unit than the model's: fixed in /repo f39d7d0); frame of the state vector")
-NOT_DECIDED = ("update_from_query (serde_json) incl. rejection of a starting charge outside 0..100; the numeric predictions of the smartcore / interpolated models; "
+NOT_DECIDED = ("update_from_query (serde_json) beyond its witness (legal starting charges become the initial state of charge, charges outside 0..100 and non-numeric ones are rejected, for BEV and PHEV); the numeric predictions of the smartcore / interpolated models; "
                "the numeric value of the ideal rate")
 ASSUMPTIONS = ["A-REAL for the Verus unit (the Kani harness is bit-precise)", "StateModel accessors, prediction model, FloatCachePolicy as assumed contracts", "f64::clamp, &str->String as assumed contracts"]
